@@ -101,6 +101,9 @@ func Generate(r *rand.Rand, u gen.Universe, bits uint8, n int) *Store {
 				if pl < len(e.key) && r.IntN(4) == 0 {
 					pl += 1 + r.IntN(len(e.key)-pl) // longer than needed is legal
 				}
+				if pl > 255 && need+1 <= 255 {
+					pl = 255 // the length is stored in one byte
+				}
 				var hdr [13]byte
 				binary.LittleEndian.PutUint64(hdr[:], e.off)
 				binary.LittleEndian.PutUint32(hdr[8:], e.size)
